@@ -51,7 +51,9 @@ def ignOf (j : Json) : R (List (Ign Nat)) := do
     | .ok v => Ign.idx <$> natOf v
     | .error _ => match e.getObjVal? "n" with
       | .ok v => Ign.name <$> natOf v
-      | .error _ => .error "bad ignore entry"
+      | .error _ => match e.getObjVal? "neg" with
+        | .ok v => Ign.neg <$> natOf v
+        | .error _ => .error "bad ignore entry"
 
 def callOf (j : Json) : R (PCall Nat) := do
   return { args := (← field j "args" >>= natList), kwds := (← field j "kwds" >>= pairList),
